@@ -166,6 +166,14 @@ func c15API(c *Ctx, optName string, opts ...larking.MuxOption) {
 		big.Set(big.Descriptor().Fields().ByName("data"), protoreflectBytes(make([]byte, 64<<10)))
 		deadline := time.Now().Add(4 * time.Second)
 		for time.Now().Before(deadline) {
+			if st.Context().Err() != nil { // the context is already done: this very send must fail
+				if err := st.SendMsg(big); err != nil {
+					released <- "send-error"
+					return err
+				}
+				released <- "send-after-cancel-succeeded"
+				return nil
+			}
 			if err := st.SendMsg(big); err != nil {
 				released <- "send-error"
 				return err
@@ -185,7 +193,52 @@ func c15API(c *Ctx, optName string, opts ...larking.MuxOption) {
 		released <- "timeout"
 		return nil
 	}
+	// slowRecv takes the first message, waits until its context is done and receives again: whatever was
+	// buffered meanwhile, a receive after cancellation is an error
+	slowRecv := func(fx *Fixture, ms *MethodSpec, st grpc.ServerStream) error {
+		if err := st.RecvMsg(fx.NewMsg("Req")); err != nil {
+			released <- "recv-error"
+			return err
+		}
+		select {
+		case <-st.Context().Done():
+		case <-time.After(4 * time.Second):
+			released <- "timeout"
+			return nil
+		}
+		if err := st.RecvMsg(fx.NewMsg("Req")); err != nil {
+			released <- "recv-error"
+			return err
+		}
+		released <- "recv-after-cancel-delivered"
+		return nil
+	}
+	// lateSend answers once, waits until its context is done and sends a second small reply: that send must fail
+	lateSend := func(fx *Fixture, ms *MethodSpec, st grpc.ServerStream) error {
+		if err := st.RecvMsg(fx.NewMsg("Req")); err != nil {
+			released <- "recv-error"
+			return err
+		}
+		if err := st.SendMsg(fx.NewMsg("Reply")); err != nil {
+			released <- "send-error"
+			return err
+		}
+		select {
+		case <-st.Context().Done():
+		case <-time.After(4 * time.Second):
+			released <- "timeout"
+			return nil
+		}
+		if err := st.SendMsg(fx.NewMsg("Reply")); err != nil {
+			released <- "send-error"
+			return err
+		}
+		released <- "send-after-cancel-succeeded"
+		return nil
+	}
 	fx, err := NewFixture([]*MethodSpec{
+		{Name: "LateSend", In: "Req", Out: "Reply", ServerStream: true, Stream: lateSend},
+		{Name: "SlowRecv", In: "Req", Out: "Reply", ClientStream: true, ServerStream: true, Stream: slowRecv},
 		{Name: "Dl", In: "Req", Out: "Reply", Unary: unary},
 		{Name: "DlS", In: "Req", Out: "Reply", ClientStream: true, ServerStream: true, Stream: func(fx *Fixture, ms *MethodSpec, st grpc.ServerStream) error {
 			mu.Lock()
@@ -376,6 +429,38 @@ func c15API(c *Ctx, optName string, opts ...larking.MuxOption) {
 			expectRelease("api-cancel", fmt.Sprintf("%s-blocked-in-recv-after-%d", m.name, m.nfirst), "recv-error")
 		}
 
+		// messages already buffered when the client cancels (no half-close): the next receive fails
+		drain()
+		{
+			ctx, cancel := context.WithCancel(context.Background())
+			st, err := cc.NewStream(ctx, &grpc.StreamDesc{ClientStreams: true, ServerStreams: true}, "/verif.v1.Svc/SlowRecv")
+			if err == nil {
+				for k := 0; k < 3; k++ {
+					st.SendMsg(fx.NewMsg("Req")) //nolint
+				}
+				time.Sleep(30*time.Millisecond + delay)
+				cancel()
+				c.Eval("api-cancel", fmt.Sprint("buffered messages then cancel, delay=", delay), true)
+				expectRelease("api-cancel", "recv-after-cancel-with-buffered-messages", "recv-error")
+			}
+			cancel()
+		}
+		// an established server stream: one reply received, then the client cancels; the handler's next send fails
+		drain()
+		{
+			ctx, cancel := context.WithCancel(context.Background())
+			st, err := cc.NewStream(ctx, &grpc.StreamDesc{ServerStreams: true}, "/verif.v1.Svc/LateSend")
+			if err == nil {
+				st.SendMsg(fx.NewMsg("Req"))   //nolint
+				st.CloseSend()                 //nolint
+				st.RecvMsg(fx.NewMsg("Reply")) //nolint
+				time.Sleep(delay)
+				cancel()
+				c.Eval("api-cancel", fmt.Sprint("established server stream, cancel between replies, delay=", delay), true)
+				expectRelease("api-cancel", "send-after-cancel-on-established-stream", "send-error")
+			}
+			cancel()
+		}
 		// server-stream: handler sending
 		drain()
 		ctx, cancel = context.WithCancel(context.Background())
